@@ -43,8 +43,9 @@ from verifkit import tlc, util
 LEVEL = "model_checking"
 
 FAITHFUL = ["any_bottom", "lit_untyped_in", "lit_generic_fallback", "ann_not_gt", "call_param_not_gt",
-            "call_args_ign", "raw_hash", "kids_not_args"]
-FIXED = [f for f in FAITHFUL if f not in ("lit_untyped_in", "lit_generic_fallback", "ann_not_gt")]
+            "call_args_ign", "call_ign", "arity_raises", "tvar_branch_opaque", "raw_hash", "kids_not_args"]
+FIXED = [f for f in FAITHFUL if f not in ("lit_untyped_in", "lit_generic_fallback", "ann_not_gt", "arity_raises",
+                                          "tvar_branch_opaque")]
 SPEC_MUTANTS = ["issubclass_swapped", "union_any_for_all", "lit_ignores_member_types", "tuple_zip_short"]
 
 
@@ -191,3 +192,693 @@ def sh(h) -> str:
     if s == "tuple":
         return "tuple[" + sh(a[0]) + ",...]"
     return s + "[" + ",".join(sh(c) for c in a) + "]"
+
+
+# ----------------------------------------------------------------------------- TLC runs (R1)
+CFG_A = """SPECIFICATION Spec
+CONSTANTS
+  Tier = "%(tier)s"
+  L = %(L)d
+  Emit = %(emit)s
+  Mut = "none"
+  Legacy = {%(legacy)s}
+%(invs)s
+CHECK_DEADLOCK FALSE
+"""
+CFG_B = """SPECIFICATION Spec
+CONSTANTS
+  RawHash = %(raw)s
+%(invs)s
+CHECK_DEADLOCK FALSE
+"""
+INV_A = ["Reflexive", "Sound", "Coh_Children", "Coh_Singleton"]
+INV_B = ["Reflexive", "Transitive", "TransitiveNoAny", "Coh_EqHash", "Coh_EqMutual"]
+_VIOL = __import__("re").compile(r"Error: Invariant (\S+) is violated")
+
+
+def _violated(res):
+    return sorted(set(_VIOL.findall(res.output)))
+
+
+def tlc_rows(d, name, tier, legacy, invs, emit_dir=None, workers=16, cont=False):
+    """MC_Subhint.tla: the relation under the flags `legacy`, the one-row laws, optionally the rows."""
+    invl = "\n".join(f"INVARIANT {i}" for i in invs)
+    if emit_dir:
+        invl += "\nINVARIANT EmitMeta\nINVARIANT EmitRows"
+    cfg = util.write_file(d, f"{name}.cfg", CFG_A % {
+        "tier": tier, "L": 2 if tier == "quick" else 3, "emit": "TRUE" if emit_dir else "FALSE",
+        "legacy": ", ".join(f'"{f}"' for f in legacy), "invs": invl})
+    return tlc.run_tlc("MC_Subhint.tla", cfg, workers=workers, env={"ROW_DIR": emit_dir or "/nonexistent"},
+                       timeout=7200, heap="12g", extra=["-continue"] if cont else None)
+
+
+def tlc_laws(d, name, matrix_file, raw_hash, invs, workers=8, cont=False):
+    """MC_SubhintLaws.tla on a matrix assembled from emitted rows."""
+    cfg = util.write_file(d, f"{name}.cfg", CFG_B % {
+        "raw": "TRUE" if raw_hash else "FALSE", "invs": "\n".join(f"INVARIANT {i}" for i in invs)})
+    return tlc.run_tlc("MC_SubhintLaws.tla", cfg, workers=workers, env={"MATRIX_FILE": matrix_file}, timeout=3600,
+                       heap="8g", extra=["-continue"] if cont else None)
+
+
+def load_rows(rows_dir):
+    meta = json.load(open(os.path.join(rows_dir, "meta.json")))
+    n = meta["nhint"]
+    rows = [None] * n
+    for f in glob.glob(os.path.join(rows_dir, "row_*.json")):
+        r = json.load(open(f))
+        rows[r["i"] - 1] = r
+    return meta, rows
+
+
+def write_matrix(d, name, rows, ksub, keq):
+    p = os.path.join(d, name)
+    with open(p, "w") as fh:
+        json.dump({"sub": [r[ksub] for r in rows], "eq": [r[keq] for r in rows],
+                   "hasany": [1 if r["hasany"] else 0 for r in rows]}, fh)
+    return p
+
+
+# ----------------------------------------------------------------------------- real side (R2)
+def _sub(is_subhint, exc, a, b):
+    try:
+        return 1 if is_subhint(a, b) else 0
+    except exc:
+        return 2
+    except Exception as ex:        # noqa
+        return "E:" + type(ex).__name__ + ": " + str(ex)[:120]
+
+
+WK_REAL = {"AnyTypeHint": "Any", "ClassTypeHint": "Class", "NewTypeTypeHint": "NewType", "LiteralTypeHint": "Literal",
+           "UnionTypeHint": "Union", "TypeVarTypeHint": "TypeVar", "TupleFixedTypeHint": "TupleFixed",
+           "TupleVariableTypeHint": "TupleVariable", "AnnotatedTypeHint": "Annotated", "CallableTypeHint": "Callable",
+           "SubscriptedTypeHint": "Subscripted"}
+
+
+def sp_left(i, seed):
+    return (i + seed) % 2
+
+
+def sp_right(j, seed):
+    return (j // 2 + seed) % 2
+
+
+def _coherence(w, TypeHint, i, h, row, out):
+    """Direct observation of one wrapper (both spellings)."""
+    for sp in (0, 1):
+        hint = w.hint(h, sp)
+        th = TypeHint(hint)
+        out["n_calls"] += 12
+        if TypeHint(hint) is not th:
+            out["coh"].append((i, "singleton", "TypeHint(h) is not TypeHint(h) for the same hint object"))
+        twin = w.fresh(h, sp)
+        try:
+            same = twin == hint and hash(twin) == hash(hint)
+        except Exception:      # noqa
+            same = False
+        if same and twin is not hint and TypeHint(twin) is not th:
+            out["coh"].append((i, "singleton", "TypeHint(h2) is not TypeHint(h) for a rebuilt hint h2 == h with equal hash"))
+        if TypeHint(th) is not th:
+            out["coh"].append((i, "singleton", "TypeHint(wrapper) is not the wrapper"))
+        if th.hint is not hint and not (same or th.hint == hint):
+            out["coh"].append((i, "hint_attr", f".hint is {th.hint!r}, wrapped {hint!r}"))
+        if hash(th) != hash(hint):
+            out["drift"].append(f"hash(TypeHint({hint!r})) is not hash(hint)")
+        kids = tuple(th)
+        if len(th) != len(kids) or bool(th) != (len(kids) > 0):
+            out["coh"].append((i, "len_iter", f"len {len(th)}, bool {bool(th)}, iteration yields {len(kids)} children"))
+        for n, kid in enumerate(kids):
+            if th[n] is not kid or th[n - len(kids)] is not kid:
+                out["coh"].append((i, "getitem", f"[{n}] is not the child iteration yields at position {n}"))
+            if kid not in th:
+                out["coh"].append((i, "contains", f"child {kid!r} yielded by iteration is not `in` the wrapper"))
+            if not isinstance(kid, TypeHint):
+                out["coh"].append((i, "iter_type", f"iteration yields a non-wrapper {kid!r}"))
+        if th[0:len(kids)] != kids:
+            out["coh"].append((i, "getitem", "slice [0:len] differs from the iterated children"))
+        args = th.args
+        try:
+            wrapped = tuple(TypeHint(a) for a in args)
+            why = None
+        except Exception as ex:     # noqa
+            wrapped, why = None, f"an entry of .args is not a hint ({type(ex).__name__})"
+        if wrapped is not None and (len(wrapped) != len(kids) or any(x is not y for x, y in zip(wrapped, kids))):
+            why = f".args has {len(args)} entries {args!r:.80}, wrapping them gives {wrapped!r:.120}"
+        if why:
+            out["coh"].append((i, "args_children",
+                               f"len / iter / [] expose {len(kids)} children {kids!r:.120} but {why}"))
+        # the model's projection (binding strength only)
+        proj = (WK_REAL.get(type(th).__name__, type(th).__name__), len(kids), len(args), bool(th._is_args_ignorable),
+                bool(th.is_ignorable))
+        want = (row["wk"], row["nkids"], row["nargs"], row["argsign"], row["ign"])
+        if proj != want:
+            out["drift"].append(f"projection of {sh(h)}: real {proj} model {want}")
+        if (why is None) != bool(row["argskids"]):
+            out["drift"].append(f"args/children of {sh(h)}: real coincide={why is None}, model {row['argskids']}")
+
+
+def _worker(args):
+    rows_dir, idxs, seed = args
+    warnings.simplefilter("ignore")
+    from beartype.door import TypeHint, is_bearable, is_subhint
+    from beartype.roar import BeartypeDoorIsSubhintException as XC
+    meta, rows = load_rows(rows_dir)
+    hints, objs, lcm = meta["hints"], meta["objs"], meta["lcm"]
+    n = len(hints)
+    w = World19()
+    P = [[w.hint(h, 0) for h in hints], [w.hint(h, 1) for h in hints]]
+    real = [w.obj(o) if o["k"] != "iter" else None for o in objs]
+    out = {"rows": {}, "coh": [], "drift": [], "n_calls": 0, "n_sound_pairs": 0, "n_sound_calls": 0, "errors": []}
+    hasany = [r["hasany"] for r in rows]
+    for a in idxs:
+        ra = rows[a]
+        HA = P[sp_left(a, seed)][a]
+        tha = TypeHint(HA)
+        sub, eq, hasheq = [0] * n, [0] * n, [0] * n
+        for b in range(n):
+            HB = P[sp_right(b, seed)][b]
+            sub[b] = _sub(is_subhint, XC, HA, HB)
+            thb = TypeHint(HB)
+            try:
+                e = tha == thb
+                eq[b] = 1 if e is True else 0 if e is False else "E:" + repr(e)
+            except XC:
+                eq[b] = 2
+            except Exception as ex:     # noqa
+                eq[b] = "E:" + type(ex).__name__
+            hasheq[b] = 1 if hash(tha) == hash(thb) else 0
+        out["n_calls"] += 2 * n
+        # soundness on the real answers: the oracle is the spec's Sat (row["sat"])
+        unsound = []
+        if ra["judged"]:
+            sat = ra["sat"]
+            for b in range(n):
+                if sub[b] != 1 or hasany[b]:
+                    continue
+                HB = P[sp_right(b, seed)][b]
+                out["n_sound_pairs"] += 1
+                bad = None
+                for j in sat:
+                    for r in range(lcm):
+                        DRAW.value = r
+                        x = real[j - 1] if real[j - 1] is not None else w.obj(objs[j - 1])
+                        try:
+                            ok = is_bearable(x, HB)
+                        except Exception as ex:     # noqa
+                            out["errors"].append(f"is_bearable({short_obj(objs[j - 1])}, {HB!r}) raises {type(ex).__name__}")
+                            ok = True
+                        if not ok:
+                            bad = (j, r)
+                            break
+                    if bad:
+                        break
+                out["n_sound_calls"] += len(sat) * lcm
+                if bad:
+                    unsound.append((b, bad[0], bad[1]))
+        out["rows"][a] = {"sub": sub, "eq": eq, "hasheq": hasheq, "unsound": unsound}
+        # reflexivity on one and the same object, both spellings
+        for sp in (0, 1):
+            v = _sub(is_subhint, XC, P[sp][a], P[sp][a])
+            if v != 1:
+                out["coh"].append((a, "reflexive_same_object", f"is_subhint(h, h) on the same object: {v}"))
+        _coherence(w, TypeHint, a, hints[a], ra, out)
+    return out
+
+
+# ----------------------------------------------------------------------------- classes of violations
+def _flat(h):
+    out = []
+    for c in h["a"]:
+        out += _flat(c) if c["k"] == "union" else [c]
+    return out
+
+
+def _hasany(h):
+    return h["k"] == "any" or any(_hasany(c) for c in h["a"])
+
+
+def _wk(h):
+    k = h["k"]
+    return {"any": "Any", "cls": "Class", "newtype": "NewType", "lit": "Literal", "union": "Union", "tvar": "TypeVar",
+            "tupf": "TupleFixed", "ann": "Annotated", "call": "Callable"}.get(
+        k, "TupleVariable" if (k == "seq" and h["s"] == "tuple") else "Subscripted")
+
+
+def shape(h, deep=True):
+    """The class of a hint as far as violation keys distinguish hints."""
+    k = h["k"]
+    if k == "any":
+        return "Any"
+    if k == "cls":
+        return "object" if h["s"] == "object" else "class"
+    if k == "newtype":
+        return "NewType"
+    if k == "lit":
+        return "Literal"
+    if k == "tvar":
+        return {"free": "TypeVar", "bound": "TypeVar(bound)", "constr": "TypeVar(constraints)"}[h["s"]]
+    if k == "union":
+        return "Union[" + ",".join(sorted({shape(m, False) for m in _flat(h)})) + "]" if deep else "Union"
+    if k == "tupf":
+        return "tuple[fixed]"
+    if k == "ann":
+        return "Annotated"
+    if k == "call":
+        return "Callable[...]" if h["s"] == "ellipsis" else "Callable[[],r]" if len(h["a"]) == 1 else "Callable"
+    if k == "seq" and h["s"] == "tuple":
+        return "tuple[variadic]"
+    if deep and h["a"] and all(_hasany(c) and c["k"] == "any" for c in h["a"]):
+        return "subscripted[Any]"
+    return "subscripted"
+
+
+def _pyeq(m, n):
+    num = ("int", "bool", "float")
+    if m["cls"] in num and n["cls"] in num:
+        return m["v"] == n["v"]
+    return m == n
+
+
+def pair_shapes(a, b):
+    if a["k"] == "lit" and b["k"] == "lit":
+        for m in a["m"]:
+            if not any(n["cls"] == m["cls"] and _pyeq(m, n) for n in b["m"]):
+                for n in b["m"]:
+                    if _pyeq(m, n):
+                        return f"Literal[{m['cls']} member]", f"Literal[== {n['cls']} member]"
+                return f"Literal[{m['cls']} member]", "Literal[no equal member]"
+    return shape(a), shape(b)
+
+
+def child_pairs(a, b):
+    ka, kb = a["k"], b["k"]
+    if ka == "union":
+        return [(m, b) for m in _flat(a)]
+    if kb == "union":
+        return [(a, m) for m in _flat(b)]
+    if ka == "ann" and kb != "ann":
+        return [(a["a"][0], b)]
+    if ka == "tupf" and _wk(b) == "TupleVariable":
+        return [(c, b["a"][0]) for c in a["a"]]
+    if _wk(a) == _wk(b) and len(a["a"]) == len(b["a"]) and ka not in ("lit", "cls", "any", "newtype", "tvar", "call", "ann"):
+        return list(zip(a["a"], b["a"]))
+    return []
+
+
+class Classifier:
+    def __init__(self, hints, R, unsound):
+        self.hints, self.R = hints, R
+        self.idx = {okey(h): i for i, h in enumerate(hints)}
+        self.unsound = unsound        # {(a, b): (j, r)}
+
+    def _ix(self, h):
+        return self.idx.get(okey(h))
+
+    def sound_root(self, a, b, depth=0):
+        """Descend to the innermost enumerated pair that is itself unsound."""
+        if depth < 6:
+            for ca, cb in child_pairs(self.hints[a], self.hints[b]):
+                i, j = self._ix(ca), self._ix(cb)
+                if i is not None and j is not None and (i, j) in self.unsound:
+                    return self.sound_root(i, j, depth + 1)
+        return a, b
+
+    def sound_key(self, a, b):
+        ra, rb = self.sound_root(a, b)
+        sa, sb = pair_shapes(self.hints[ra], self.hints[rb])
+        return {"law": "soundness", "a": sa, "b": sb}, (ra, rb)
+
+    def bad_triple(self, a, b, c):
+        R = self.R
+        return R[a][b] == 1 and R[b][c] == 1 and R[a][c] != 1
+
+    def trans_root(self, a, b, c, depth=0):
+        H = self.hints
+        if depth < 6:
+            ha, hb, hc = H[a], H[b], H[c]
+            cands = []
+            if ha["k"] == "union":
+                cands = [(m, hb, hc) for m in _flat(ha)]
+            elif (_wk(ha) == _wk(hb) == _wk(hc) and len(ha["a"]) == len(hb["a"]) == len(hc["a"])
+                  and ha["k"] not in ("lit", "cls", "any", "newtype", "tvar", "call", "ann", "union")):
+                cands = list(zip(ha["a"], hb["a"], hc["a"]))
+            for t in cands:
+                ix = [self._ix(x) for x in t]
+                if None not in ix and self.bad_triple(*ix):
+                    return self.trans_root(*ix, depth + 1)
+        return a, b, c
+
+    def trans_key(self, a, b, c):
+        H, R = self.hints, self.R
+        key = {"law": "transitivity"}
+        if H[b]["k"] == "any":
+            key["via"] = "Any"
+        elif _hasany(H[a]) or _hasany(H[b]) or _hasany(H[c]):
+            key["via"] = "a hint containing Any"
+        if "via" in key:
+            if R[a][c] == 2:
+                key["conclusion"] = "raises BeartypeDoorIsSubhintException"
+            return key, (a, b, c)
+        a, b, c = self.trans_root(a, b, c)
+        for (x, y), which in (((a, b), "a <= b"), ((b, c), "b <= c")):
+            if (x, y) in self.unsound:
+                k2, _ = self.sound_key(x, y)
+                key["cause"] = f"unsound premise {which}"
+                key["premise"] = f"{k2['a']} <= {k2['b']}"
+                return key, (a, b, c)
+        key.update({"a": shape(H[a]), "b": shape(H[b]), "c": shape(H[c])})
+        if R[a][c] == 2:
+            key["conclusion"] = "raises BeartypeDoorIsSubhintException"
+        return key, (a, b, c)
+
+
+# ----------------------------------------------------------------------------- the check
+def _rejected(rep, res, inv, label):
+    rep.tlc(res, f"{label}: {inv} rejected" if res.violated else f"{label}: {inv} NOT rejected")
+    if res.violated != inv:
+        rep.machinery(f"{label}: TLC does not reject {inv} (violated: {res.violated}): vacuous model")
+    rep.add("spec_mutants_killed")
+    at = [s_.get("ia") for _, s_ in res.error_trace][-1:]
+    rep.cov.setdefault("spec_mutants", []).append({"run": label, "rejected_by": inv, "at_hint_index": at})
+    return at[0] if at else None
+
+
+def _r1(rep, tier, d, rows_dir):
+    """All TLC runs; returns (meta, rows)."""
+    muts = ["issubclass_swapped", "no_wrapper_cache"] if tier == "quick" else SPEC_MUTANTS + ["no_wrapper_cache"]
+    fa = "flags LegacyFaithful (beartype 0.23.0)"
+    with ThreadPoolExecutor(max_workers=4) as ex:
+        f_main = ex.submit(tlc_rows, d, "intended", tier, [], INV_A, emit_dir=rows_dir, workers=8)
+        f_faith = {inv: ex.submit(tlc_rows, d, "faithful_" + inv, "quick", FAITHFUL, [inv], workers=2)
+                   for inv in ("Sound", "Coh_Children")}
+        f_muts = ex.submit(lambda: [(m, tlc_rows(d, "mut_" + m, "quick", [m], INV_A, workers=3)) for m in muts])
+        res = f_main.result()
+        rep.tlc(res, f"MC_Subhint {tier}, flags {{}} (the demanded relation): Reflexive, Sound, Coh_Children, "
+                     f"Coh_Singleton + rows")
+        if res.violated:
+            at = [s_.get("ia") for _, s_ in res.error_trace][-1:]
+            rep.machinery(f"MC_Subhint ({tier}) violates {res.violated} under the demanded relation at hint index {at}: "
+                          f"fix the model")
+        for inv, f in f_faith.items():
+            _rejected(rep, f.result(), inv, "MC_Subhint quick, " + fa)
+        for m, r in f_muts.result():
+            if not r.violated:
+                rep.machinery(f"spec mutant {m} is not rejected by any invariant: vacuous model")
+            want = "Coh_Singleton" if m == "no_wrapper_cache" else "Sound"
+            if r.violated != want:
+                rep.note(f"spec mutant {m} rejected by {r.violated} (expected {want})")
+            rep.tlc(r, f"MC_Subhint quick, spec mutant {m}: rejected by {r.violated}")
+            rep.add("spec_mutants_killed")
+            rep.cov.setdefault("spec_mutants", []).append({"mutant": m, "rejected_by": r.violated})
+    meta, rows = load_rows(rows_dir)
+    if any(r is None for r in rows) or len(rows) < 100:
+        rep.machinery(f"rows missing: {sum(r is None for r in rows)} of {len(rows)}")
+    mi = write_matrix(d, "m_intended.json", rows, "subI", "eqI")
+    mf = write_matrix(d, "m_faithful.json", rows, "subF", "eqF")
+    with ThreadPoolExecutor(max_workers=5) as ex:
+        f_i = ex.submit(tlc_laws, d, "laws_intended", mi, False, INV_B, 6)
+        f_f = {inv: ex.submit(tlc_laws, d, "laws_faithful_" + inv, mf, True, [inv], 2)
+               for inv in ("Reflexive", "TransitiveNoAny", "Transitive", "Coh_EqHash")}
+        res = f_i.result()
+        rep.tlc(res, "MC_SubhintLaws on the matrix of the demanded relation: Reflexive, Transitive (all triples), "
+                     "TransitiveNoAny, Coh_EqHash, Coh_EqMutual")
+        if res.violated:
+            at = [s_.get("ia") for _, s_ in res.error_trace][-1:]
+            rep.machinery(f"MC_SubhintLaws violates {res.violated} under the demanded relation at hint "
+                          f"{[sh(meta['hints'][i - 1]) for i in at if i]}: fix the model")
+        rej = {}
+        for inv, f in f_f.items():
+            at = _rejected(rep, f.result(), inv, "MC_SubhintLaws on the matrix of " + fa)
+            rej[inv] = sh(meta["hints"][at - 1]) if at else None
+        rep.cov["faithful_model_rejected_laws_first_at"] = rej
+    return meta, rows
+
+
+def _real_hint_repr(w, h):
+    try:
+        return repr(w.hint(h, 0))
+    except Exception as ex:     # noqa
+        return f"<{type(ex).__name__}>"
+
+
+def run(rep, tier, seed):
+    rep.assumptions += [
+        "bounded hint set of MC_Subhint.tla (classes incl. bare ABCs, unions, literals, Annotated with beartype validators, "
+        "fixed / variadic tuples, containers, mappings, type[...], Callable, NewType, TypeVar; depth <= 2); user generics "
+        "(Generic[T] subclasses) are not modelled",
+        "object universe of MC_Semantics.tla; Sat of Semantics.tla is the oracle of 'fully satisfies A' (pairs whose left "
+        "side contains Callable[...] or Iterator/Generator are not judged for soundness: no full meaning in the universe)",
+        "an is_subhint call that raises counts as 'does not hold'",
+        "transitivity is judged for ALL hints incl. Any (the statement exempts Any only from soundness); violations through "
+        "Any carry their own key",
+    ]
+    with util.scratch("c19-") as d:
+        rows_dir = os.path.join(d, "rows")
+        os.makedirs(rows_dir)
+        meta, rows = _r1(rep, tier, d, rows_dir)
+        hints, objs, lcm = meta["hints"], meta["objs"], meta["lcm"]
+        n = len(hints)
+        procs = 16
+        chunks = [list(range(n))[i::procs * 3] for i in range(procs * 3)]
+        chunks = [c for c in chunks if c]
+        with mp.get_context("fork").Pool(procs) as pool:
+            results = pool.map(_worker, [(rows_dir, c, seed) for c in chunks], chunksize=1)
+        _judge(rep, tier, seed, meta, rows, results)
+
+
+def _judge(rep, tier, seed, meta, rows, results):
+    from beartype.door import TypeHint, is_bearable, is_subhint
+    from beartype.roar import BeartypeDoorIsSubhintException as XC
+    hints, objs, lcm = meta["hints"], meta["objs"], meta["lcm"]
+    n = len(hints)
+    R = [None] * n
+    EQ = [None] * n
+    HQ = [None] * n
+    unsound = {}
+    coh, drift_msgs, errors = [], [], []
+    calls = spairs = scalls = 0
+    for res in results:
+        for a, r in res["rows"].items():
+            R[a], EQ[a], HQ[a] = r["sub"], r["eq"], r["hasheq"]
+            for b, j, dr in r["unsound"]:
+                unsound[(a, b)] = (j, dr)
+        coh += res["coh"]
+        drift_msgs += res["drift"]
+        errors += res["errors"]
+        calls += res["n_calls"]
+        spairs += res["n_sound_pairs"]
+        scalls += res["n_sound_calls"]
+    if any(r is None for r in R):
+        rep.machinery("real rows missing")
+    rep.count(calls + scalls)
+    rep.add("traces_validated_against_impl", n)
+    rep.add("hints", n)
+    rep.add("ordered_pairs", n * n)
+    rep.add("soundness_pairs_judged", spairs)
+    rep.add("soundness_is_bearable_calls", scalls)
+    w = World19()
+    S = [sh(h) for h in hints]
+
+    def real3(a, b):
+        return _sub(is_subhint, XC, w.hint(hints[a], 0), w.hint(hints[b], 0))
+
+    # ---- binding strength: the real answers against the faithful model --------------------------------
+    dF = dX = dE = 0
+    ex_d = []
+    n_true = n_exc = 0
+    for a in range(n):
+        for b in range(n):
+            v = R[a][b]
+            n_true += v == 1
+            n_exc += v == 2
+            if v != rows[a]["subF"][b]:
+                dF += 1
+                if len(ex_d) < 8:
+                    ex_d.append(f"is_subhint({S[a]}, {S[b]}): real {v}, model(0.23.0) {rows[a]['subF'][b]}")
+            dX += v != rows[a]["subX"][b]
+            dE += EQ[a][b] != rows[a]["eqF"][b]
+            if v == 1:
+                rep.nontrivial(f"T:{_wk(hints[a])}:{_wk(hints[b])}")
+            elif v == 2:
+                rep.nontrivial(f"X:{_wk(hints[a])}:{_wk(hints[b])}")
+            elif not isinstance(v, int):
+                rep.violation({"law": "is_subhint raises an unexpected exception", "a": shape(hints[a]), "b": shape(hints[b]),
+                               "exc": v.split(":")[1]},
+                              f"is_subhint({S[a]}, {S[b]}) raises {v[2:]}", {"law": "call", "a": hints[a], "b": hints[b]})
+    rep.cov["model_agreement_pairs"] = n * n - dF
+    rep.cov["real_true_pairs"] = n_true
+    rep.cov["real_undecidable_pairs"] = n_exc
+    if n_true <= n or spairs == 0 or scalls == 0:
+        rep.machinery(f"vacuous replay: {n_true} true pairs, {spairs} pairs judged for soundness, {scalls} is_bearable calls")
+    if dF:
+        if dX == 0:
+            rep.note(f"the tree answers like the model with the proposed fixes applied (LegacyFixed) on all {n * n} pairs; "
+                     f"{dF} pairs differ from the 0.23.0 model")
+        else:
+            rep.spec_drift(f"{dF} of {n * n} is_subhint answers differ from the 0.23.0 model ({dX} from the fixed model)")
+            for m in ex_d:
+                rep.spec_drift(m)
+            rep.note(f"SPEC-DRIFT: {dF} real is_subhint answers differ from the faithful model: {ex_d[:3]}")
+    if dE:
+        rep.spec_drift(f"{dE} of {n * n} TypeHint == answers differ from the 0.23.0 model")
+    for m in sorted(set(drift_msgs))[:10]:
+        rep.spec_drift(m)
+    for m in sorted(set(errors))[:5]:
+        rep.note("is_bearable raised during the soundness replay: " + m)
+
+    cl = Classifier(hints, R, unsound)
+
+    # ---- reflexivity ----------------------------------------------------------------------------------
+    for a in range(n):
+        if R[a][a] != 1 and real3(a, a) != 1:
+            v = real3(a, a)
+            rep.violation({"law": "reflexivity", "a": shape(hints[a]),
+                           "outcome": "raises BeartypeDoorIsSubhintException" if v == 2 else str(v)},
+                          f"is_subhint(H, H) is not True for H = {_real_hint_repr(w, hints[a])}: "
+                          f"{'raises BeartypeDoorIsSubhintException' if v == 2 else v}",
+                          {"law": "reflexivity", "a": hints[a]})
+
+    # ---- soundness (judged by the workers on the real answers; here: classes and minimal witnesses) -----
+    pred_only = real_only = 0
+    for a in range(n):
+        for b in range(n):
+            if rows[a]["unsF"][b] and R[a][b] == 1 and (a, b) not in unsound:
+                pred_only += 1
+    skeys = {}
+    for (a, b) in sorted(unsound):
+        real_only += not rows[a]["unsF"][b]
+        key, (ra, rb) = cl.sound_key(a, b)
+        k = json.dumps(key, sort_keys=True)
+        skeys.setdefault(k, [key, (ra, rb), 0])
+        skeys[k][2] += 1
+    for k, (key, (ra, rb), cnt) in skeys.items():
+        j, dr = unsound[(ra, rb)]
+        x = objs[j - 1]
+        rep.violation(key,
+                      f"is_subhint(A, B) is True for A = {_real_hint_repr(w, hints[ra])}, B = {_real_hint_repr(w, hints[rb])} "
+                      f"(no Any), but {short_obj(x)} fully satisfies A (Sat of Semantics.tla) and is_bearable(x, B) is False "
+                      f"(draw residue {dr}); {cnt} enumerated pairs in this class",
+                      {"law": "soundness", "a": hints[ra], "b": hints[rb], "obj": x, "draw": dr})
+    rep.cov["unsound_pairs_real"] = len(unsound)
+    if pred_only or real_only:
+        rep.spec_drift(f"soundness verdicts: {pred_only} pairs unsound in the model (SatB) but never rejected by "
+                       f"is_bearable, {real_only} rejected by is_bearable but sound in the model")
+
+    # ---- transitivity over all triples ------------------------------------------------------------------
+    up = [[b for b in range(n) if R[a][b] == 1] for a in range(n)]
+    tkeys = {}
+    n_prem = 0
+    for a in range(n):
+        for b in up[a]:
+            n_prem += len(up[b])
+            for c in up[b]:
+                if R[a][c] != 1:
+                    key, root = cl.trans_key(a, b, c)
+                    k = json.dumps(key, sort_keys=True)
+                    e = tkeys.setdefault(k, [key, [], 0])
+                    e[2] += 1
+                    if len(e[1]) < 6 and root not in e[1]:
+                        e[1].append(root)
+    rep.add("transitivity_premise_pairs", n_prem)
+    if n_prem < n:
+        rep.machinery("vacuous transitivity check")
+    for k, (key, roots, cnt) in tkeys.items():
+        done = False
+        for (a, b, c) in roots:
+            ab, bc, ac = real3(a, b), real3(b, c), real3(a, c)
+            if ab == 1 and bc == 1 and ac != 1:
+                rep.violation(key,
+                              f"is_subhint(A, B) and is_subhint(B, C) are True but is_subhint(A, C) "
+                              f"{'raises BeartypeDoorIsSubhintException' if ac == 2 else 'is False'}: "
+                              f"A = {_real_hint_repr(w, hints[a])}, B = {_real_hint_repr(w, hints[b])}, "
+                              f"C = {_real_hint_repr(w, hints[c])}; {cnt} enumerated triples in this class",
+                              {"law": "transitivity", "a": hints[a], "b": hints[b], "c": hints[c]})
+                done = True
+                break
+        if not done:
+            rep.spec_drift(f"transitivity class {key} not confirmed on one set of hint objects (spelling-dependent answers)")
+
+    # ---- == => equal hashes, mutual subhints --------------------------------------------------------------
+    hk, mk = {}, {}
+    n_eq = 0
+    for a in range(n):
+        for b in range(n):
+            if EQ[a][b] != 1:
+                continue
+            n_eq += 1
+            if not HQ[a][b]:
+                sa, sb = sorted([shape(hints[a]), shape(hints[b])])
+                key = {"law": "equal wrappers have equal hashes", "a": sa, "b": sb}
+                e = hk.setdefault(json.dumps(key, sort_keys=True), [key, (a, b), 0])
+                e[2] += 1
+            if not (R[a][b] == 1 and R[b][a] == 1) and not (real3(a, b) == 1 and real3(b, a) == 1):
+                key = {"law": "equal wrappers are mutual subhints", "a": shape(hints[a]), "b": shape(hints[b])}
+                e = mk.setdefault(json.dumps(key, sort_keys=True), [key, (a, b), 0])
+                e[2] += 1
+    rep.add("equal_wrapper_pairs", n_eq)
+    for key, (a, b), cnt in hk.values():
+        ha, hb = w.hint(hints[a], sp_left(a, seed)), w.hint(hints[b], sp_right(b, seed))
+        if TypeHint(ha) == TypeHint(hb) and hash(TypeHint(ha)) != hash(TypeHint(hb)):
+            rep.violation(key, f"TypeHint(A) == TypeHint(B) but their hashes differ: A = {ha!r}, B = {hb!r}; "
+                               f"{cnt} enumerated ordered pairs in this class",
+                          {"law": "eq_hash", "a": hints[a], "b": hints[b], "spa": sp_left(a, seed), "spb": sp_right(b, seed)})
+    for key, (a, b), cnt in mk.values():
+        rep.violation(key, f"TypeHint(A) == TypeHint(B) but they are not mutual subhints: A = {_real_hint_repr(w, hints[a])}, "
+                           f"B = {_real_hint_repr(w, hints[b])}; {cnt} pairs",
+                      {"law": "eq_mutual", "a": hints[a], "b": hints[b]})
+
+    # ---- wrapper coherence observed by the workers ----------------------------------------------------------
+    ck = {}
+    for i, kind, msg in coh:
+        key = {"law": "wrapper coherence", "check": kind, "wrapper": _wk(hints[i]) + "TypeHint"}
+        if kind == "reflexive_same_object":
+            continue        # reported under "reflexivity"
+        if kind == "args_children":
+            key["hint"] = shape(hints[i])
+        e = ck.setdefault(json.dumps(key, sort_keys=True), [key, i, msg, 0])
+        e[3] += 1
+    for key, i, msg, cnt in ck.values():
+        rep.violation(key, f"TypeHint({_real_hint_repr(w, hints[i])}): {msg}; {cnt} observations in this class",
+                      {"law": "coherence", "a": hints[i]})
+
+    a = next((a for a in range(n) if hints[a]["k"] == "seq" and up[a]), 0)
+    rep.sample({"A": S[a], "real_hint": _real_hint_repr(w, hints[a]), "is_subhint_true_for_B_in": [S[b] for b in up[a]][:12],
+                "objects_fully_satisfying_A": [short_obj(objs[j - 1]) for j in rows[a]["sat"][:6]]})
+    a = next((a for a in range(n) if 2 in R[a]), 0)
+    rep.sample({"A": S[a], "raises_undecidable_for_B_in": [S[b] for b in range(n) if R[a][b] == 2][:8]})
+    rep.cov["violation_classes"] = {"soundness": len(skeys), "transitivity": len(tkeys), "eq_hash": len(hk),
+                                    "eq_mutual": len(mk), "coherence": len(ck)}
+    rep.cov["exhaustive"] = True
+
+
+def replay(rep, path):
+    from beartype.door import TypeHint, is_bearable, is_subhint
+    from beartype.roar import BeartypeDoorIsSubhintException as XC
+    case = json.load(open(path))["case"]
+    w = World19()
+    hs = {k: case[k] for k in ("a", "b", "c") if k in case}
+    for sp in (0, 1):
+        real = {k: w.hint(h, sp) for k, h in hs.items()}
+        print(f"spelling {sp}: " + ", ".join(f"{k.upper()} = {v!r}" for k, v in real.items()))
+        for x, y in (("a", "a"), ("a", "b"), ("b", "a"), ("b", "c"), ("a", "c")):
+            if x in real and y in real:
+                print(f"  is_subhint({x.upper()}, {y.upper()}) ->", _sub(is_subhint, XC, real[x], real[y]))
+                rep.count(1)
+        if "b" in real:
+            ta, tb = TypeHint(real["a"]), TypeHint(real["b"])
+            try:
+                print("  TypeHint(A) == TypeHint(B):", ta == tb, " hashes equal:", hash(ta) == hash(tb))
+            except Exception as ex:   # noqa
+                print("  TypeHint(A) == TypeHint(B) raises", type(ex).__name__)
+        ta = TypeHint(real["a"])
+        print("  TypeHint(A):", ta, "len", len(ta), "children", tuple(ta), ".args", ta.args,
+              "is TypeHint(A):", TypeHint(real["a"]) is ta)
+        if "obj" in case:
+            x = w.obj(case["obj"])
+            for r in range(2):
+                DRAW.value = r
+                print(f"  object {x!r}: is_bearable(x, A) = {is_bearable(x, real['a'])}, "
+                      f"is_bearable(x, B) = {is_bearable(x, real['b'])}  (draw {r})")
+                rep.count(2)
+    rep.level = "exploration"
+    rep.nontrivial("a")
+    rep.nontrivial("b")
